@@ -750,13 +750,29 @@ def gen_args(rng, S):
 
 def gen_line(rng, S):
     out = []
-    fixed = [b"", b"\n", b"\r", b"\r\n", b"a", b"a\n", b"a\r\n", b"a\r", b"\n\n", b"\r\r\n", b"a\nb", b"a\r\nb\r\n", b"\n\r\n\r", b"a\n\rb"]
+    fixed = [b"", b"\n", b"\r", b"\r\n", b"a", b"a\n", b"a\r\n", b"a\r", b"\n\n", b"\r\r\n", b"a\nb", b"a\r\nb\r\n", b"\n\r\n\r", b"a\n\rb",
+             b"ab\r", b"a\n\r", b"a\r\r", b"ab\r\n\r", b"a \r"]
     bufs = list(fixed)
     for _ in range(150 * S):
         bufs.append(bytes(rng.choice(b"ab\r\n \t") for _ in range(rng.range(1, 80))))
     bufs.append(bytes(rng.choice(b"a\n") for _ in range(5000)))
-    for b in bufs:
+    for bi, b in enumerate(bufs):
         out.append((U.c_line(0, b), M("line", "buf_get_next_line", lcls(len(b)), "")))
+        # continuation from a slice the caller cut itself (trimmed line, slice ending right before a CR/LF or at the end):
+        # every (offset, size) for the short buffers, slices ending near each line end and at the buffer end for the others
+        if 0 < len(b) <= 6:
+            sl = [(o, z) for o in range(len(b) + 1) for z in range(len(b) - o + 1)]
+        elif 0 < len(b) <= 80:
+            ends = {len(b), len(b) - 1, len(b) - 2} | {i + d for i, c in enumerate(b) if c in (10, 13) for d in (-1, 0, 1)}
+            sl = []
+            for e in sorted(x for x in ends if 0 <= x <= len(b)):
+                o = rng.below(e + 1)
+                sl.append((o, e - o))
+            sl = sl[:12]
+        else:
+            sl = []
+        for o, z in sl:
+            out.append((U.c_line(5, b, o, z), M("line", "buf_get_next_line", lcls(len(b)), "", "caller-slice")))
         for sub, fn in ((1, "calc_sptab_count"), (2, "calc_sptab_count_r"), (3, "calc_non_sptab_count"), (4, "calc_non_sptab_count_r")):
             out.append((U.c_line(sub, b), M("none", fn, lcls(len(b)), "")))
     return out
@@ -973,15 +989,45 @@ def evaluate(case, meta, res):
         _canary_keys(fn, r.u8(), "", viol)
         return "args%d" % min(cnt, 3), viol, obsv
     if ev == "line":
+        blob = _case_blob(case, "line")
+        n = len(blob)
+        spans = []
         while r.u8() == 1:
-            r.i64(); r.u64()
+            spans.append((r.i64(), r.u64()))
         rc = r.i32()
         cnt = r.u64()
-        n = len(_case_blob(case, "line"))
+        for off, sz in spans:   # every line handed back is a sub-span of the buffer
+            if off < 0 or off > n or sz > n - off:
+                _viol(viol, "span:buf_get_next_line:line-outside-buffer", "inside [0,%d]" % n, "offset %d size %d" % (off, sz))
+                break
+        if meta.get("detail") == "caller-slice" and n:
+            rr = R(case); rr.u8(); rr.u8(); rr.u8(); rr.blob(); o0 = rr.u32(); z0 = rr.u32()
+            want = _next_line_model(blob, o0 + z0)
+            got = spans[0] if (rc == 0 and spans) else None
+            if (rc == 0) != (want is not None) or (want is not None and got != want):
+                _viol(viol, "oracle:buf_get_next_line:wrong-next-line:caller-slice", repr(want), "rc=%d %r (slice %d+%d of %d bytes)" % (rc, got, o0, z0, n))
         if cnt > n + 1:
             _viol(viol, "progress:buf_get_next_line:more-lines-than-bytes", "<= %d lines" % (n + 1), "%d" % cnt)
         return "lines%d" % min(cnt, 3), viol, obsv
     return "ok", viol, obsv
+
+
+def _next_line_model(b, p):
+    """Line following the slice that ends at offset p: skip one CR and/or one LF that are inside the buffer, the line runs
+    to the next LF (a CR directly before it is not part of the line) or to the end; None at the end of the buffer."""
+    n = len(b)
+    if p < n and b[p] == 13:
+        p += 1
+    if p < n and b[p] == 10:
+        p += 1
+    if p >= n:
+        return None
+    e = b.find(b"\n", p)
+    if e < 0:
+        e = n
+    elif e > p and b[e - 1] == 13:
+        e -= 1
+    return (p, e - p)
 
 
 def _case_blob(case, kind):
